@@ -114,9 +114,19 @@ CHECKS = {
             "The log is only checked for files that build (a file that stops with an evaluation error prints no log by design of main.rs). "
             "A statically detectable malformed assertion may be reported as a build error instead of a failing assertion; both are FAIL.",
             "DESIGN.md section 4 C13"),
+    "C14": ("model_checking",
+            "explicit directory-state model of `ucg build` with out; every model trace replayed against the real binary (E3)",
+            "Model: state = file name -> bytes; build with one out writes stem.ext := bytes of `convert` or leaves the state unchanged and "
+            "exits 1; two outs are an error; no out changes nothing. Replayed per converter (all 8): 0/1/2 out statements x 4-11 values "
+            "(convertible and not: NULL / non-table / mixed lists for toml, NaN for json, constraint values, non-tuples and malformed tuples "
+            "for env/flags/exec/xml) x {empty directory, earlier artifact present}; every sequence of two (thorough three) builds over "
+            "{A, B, unconvertible}. After every build the listing and all bytes are compared; expected bytes come from the real convert "
+            "expression evaluated in-process.",
+            "For two out statements the model accepts both 'nothing written' and 'first artifact written'; the exit status must be 1.",
+            "DESIGN.md section 4 C14"),
 }
 
-CLAIMED = ["C01", "C02", "C03", "C04", "C05", "C07", "C10", "C11", "C12", "C13"]
+CLAIMED = ["C01", "C02", "C03", "C04", "C05", "C07", "C10", "C11", "C12", "C13", "C14"]
 
 NOT_YET = "check not built yet in this round; design in DESIGN.md section 4 (bounded-exhaustive enumeration applies)"
 
